@@ -10,7 +10,7 @@ NOT_APPLICABLE["C03"] = ("relation between an arbitrary dynamic call tree and an
                          "evolution of handler collections and accumulator forks; no sound static abstraction in reach bounds embeddings")
 NOT_APPLICABLE["C07"] = ("quantifies over call trees and runtime data flow through Total accumulator forks; its only structural clause "
                          "(exit hook on every way out) is decided under C06 rule R06.1")
-SOURCE_COMMITS = ["746fd1a fix: undo the instrumentation counts when the new variant cannot be installed", "798314f fix: untool the functions of a selector that autotool ends up refusing", "f8603ba fix: roll back the tooling of earlier selectors when a later one is refused", "e29e1a9 fix: mark the cached instrumented variants as helper functions", "ceee686 fix: match the receiver of a bound-method selector by identity", "f362961 fix: serialize instrumentation changes between threads", "3d31492 fix: do not rewrite the bodies of nested classes, lambdas and async functions", "744a5c2 fix: rewrite the right-hand side of assignments too"]
+SOURCE_COMMITS = ["746fd1a fix: undo the instrumentation counts when the new variant cannot be installed", "798314f fix: untool the functions of a selector that autotool ends up refusing", "f8603ba fix: roll back the tooling of earlier selectors when a later one is refused", "e29e1a9 fix: mark the cached instrumented variants as helper functions", "ceee686 fix: match the receiver of a bound-method selector by identity", "f362961 fix: serialize instrumentation changes between threads", "3d31492 fix: do not rewrite the bodies of nested classes, lambdas and async functions", "744a5c2 fix: rewrite the right-hand side of assignments too", "2a0cb7a fix: collect the names bound in except bodies and by match patterns"]
 
 claim("C12", "P", "AST normal-form comparison tables + wrapper-guard agreement (syntactic dataflow)",
       "Decides structural clauses only: each stock comparison predicate is the single comparison its name states (holds for all "
@@ -74,3 +74,10 @@ claim("C06", "T+P", "template queries on the abstract-interpretation output (nes
       "expression slot; meta-name/tag tables agree across emitting sites, _standard_info, verification and fitting. Two genuine defects (no #value on fall-through; double #value when a finally returns) are known findings.",
       "Trusted: Python's try/finally/with semantics (finally runs on every way out, including generator close). Event values and counts at run time are not decided.",
       "DESIGN.md section 6, C06")
+
+claim("C10", "T+P", "effect-table extraction of the name collector (which handler records which identifier, which child fields it traverses) decided against a Python binding table validated by ast ASDL + symtable; CFG must-call rules on the refusal path",
+      "Decides, per syntactic binding construct (hence for every program), whether the collector records the bound name with the provenance Python's scoping implies and keeps nested scopes out; "
+      "the provenance algebra; and that verification is reached before activation counts, raises iff problems, and covers every documented refusal. The oracle (symtable of this interpreter) "
+      "is consulted on 3-line snippets, never on ptera. Nine genuine disagreements are listed as known findings.",
+      "Trusted: symtable/ASDL of the running interpreter (rows failing validation give ANALYSIS-ERROR). The collector is read, not run: handler effects are matched syntactically (self.assigned.add(...), self.provenance[...] = literal, generic_visit / visit calls, helper methods inlined).",
+      "DESIGN.md section 6, C10")
